@@ -93,6 +93,18 @@ V_u16_u64 == Vec(U16, U64)                                                     \
 S_u64     == Str(U64)
 X_u8_u64  == Flex(U8, U64)                                                   \* zero-sized elements
 
+\* ---- generic definitions (instantiated) ---------------------------------------------------------
+GS1 == Generic(Struct("GS1", <<U8, U32, Arr(U8, 3)>>))
+GS2 == Generic(Tuple(WithDefault(Struct("GS2", <<U16, SS3, U16>>), 1)))
+GE1 == Generic(WithDefault(Enum("GE1", 1, << <<U16>>, <<U8, U16>>, <<>> >>), 3))
+GE2 == Generic(Enum("GE2", 2, << <<U32, U8>>, <<>>, <<Arr(U32, 2)>> >>))
+GU1 == Generic(WithDefault(UStruct("GU1", <<U8, U32, Vec(U8, U16)>>), 1))
+GU2 == Generic(Tuple(UStruct("GU2", <<U16, SE1, Vec(SE1, U8)>>)))
+GX1 == Generic(WithDefault(UEnum("GX1", 1, << <<>>, <<U16, Vec(U16, U8)>>, <<U16, U32>> >>), 1))
+GX2 == Generic(UEnum("GX2", 2, << <<U32>>, <<U8, Vec(U32, U8)>>, <<S_u8>> >>))
+GP1 == Generic(WithDefault(Portable(UStruct("GP1", <<LeU16, BoolT, Vec(LeU32, LeU16)>>)), 1))
+GP2 == Generic(Portable(UEnum("GP2", 1, << <<>>, <<U8, LeU32, Vec(LeU16, LeU16)>>, <<BeU16>> >>)))
+
 US5 == UStruct("US5", <<U8, UE1>>)
 X_us2_u16 == Flex(US2, U16)
 X_ue1_u8  == Flex(UE1, U8)
@@ -131,7 +143,9 @@ Core == <<
   C("UE8", UE8), C("UE9", UE9), C("UE10", UE10), C("UE11", UE11), C("UE12", UE12), C("UE13", UE13), C("UE14", UE14),
   C("US9", US9), C("US10", US10), C("PE16", PE16), C("PS32", PS32), C("V_unit_u8", V_unit_u8),
   C("SS7", SS7), C("US11", US11), C("UE15", UE15), C("UE16", UE16), C("PE1", PE1),
-  C("V_u16_u64", V_u16_u64), C("S_u64", S_u64), C("X_u8_u64", X_u8_u64)
+  C("V_u16_u64", V_u16_u64), C("S_u64", S_u64), C("X_u8_u64", X_u8_u64),
+  C("GS1", GS1), C("GS2", GS2), C("GE1", GE1), C("GE2", GE2), C("GU1", GU1), C("GU2", GU2), C("GX1", GX1), C("GX2", GX2),
+  C("GP1", GP1), C("GP2", GP2)
 >>
 
 (***************************************************************************)
